@@ -42,6 +42,10 @@ fn pool() -> Vec<(&'static str, Value)> {
         ("arr40n", Value::Array(mixed_num)),
         ("ampuni", Value::scalar("\u{6771}\u{4eac} & \u{65e5}\u{672c}\u{8a9e} &lt\u{e9} &amp;\u{65e5} &#39\u{e9}\u{1f600}&quot")),
         ("hugenum", Value::scalar("1455616800000000")),
+        // first characters whose upper / lower case form has another UTF-8 length
+        ("case1", Value::scalar("\u{131}rmak \u{17f}o")),
+        ("case2", Value::scalar("\u{fb01}sh \u{390}")),
+        ("case3", Value::scalar("\u{149}ab\u{130}")),
         ("y10k", Value::scalar("253402300800")),
         ("minstr", Value::scalar(i64::MIN.to_string())),
         ("nil", Value::Nil),
